@@ -37,7 +37,7 @@ const ORIG_CLASSES: &[&str] = &[
 const OBF_METHODS: &[&str] = &["a", "b", "m", "<init>", "a$b", "é"];
 const ORIG_METHODS: &[&str] = &["run", "call", "<init>", "lambda$x$0", "get", "é", "doWork"];
 const TYPES: &[&str] = &["void", "int", "java.lang.String", "int[]", "p.Q$R", "é"];
-const ARGS: &[&str] = &["", "int", "int,long", "java.lang.String", "p.Q[],int", "é", "p.Q$R,java.lang.String"];
+const ARGS: &[&str] = &["", "int", "int,long", "java.lang.String", "p.Q[],int", "é", "p.Q$R,java.lang.String", "p.Q,int", "p.Q$R"];
 const FILES: &[&str] = &["Foo.kt", "Bar.java", "R8$$SyntheticClass", "é.kt", "a b.kt"];
 
 pub fn line_number(rng: &mut Rng, wild: bool) -> u128 {
@@ -292,6 +292,16 @@ pub struct Universe {
 }
 
 pub fn universe(src: &[u8]) -> Universe {
+    // the generators read the file through the library's own iterator: a panic in there must not take
+    // the harness down (the calls under test record it), the universe is then what was seen before it
+    let owned = src.to_vec();
+    match crate::guarded(move || universe_unguarded(&owned)) {
+        Ok(u) => u,
+        Err(_) => Universe { classes: vec![], methods: vec![], args: vec![], lines: vec![] },
+    }
+}
+
+fn universe_unguarded(src: &[u8]) -> Universe {
     let mut u = Universe { classes: vec![], methods: vec![], args: vec![], lines: vec![] };
     for r in ProguardMapping::new(src).iter().flatten() {
         match r {
@@ -321,10 +331,33 @@ pub fn universe(src: &[u8]) -> Universe {
     u
 }
 
+/// mappings with shapes that random generation hits too rarely (every one of them was needed to catch a
+/// seeded change): they are part of every retrace / cross-version / cache-layout session set
+pub fn crafted() -> Vec<Vec<u8>> {
+    let v: Vec<&[u8]> = vec![
+        // inline-looking groups whose shared range starts at 0 / ends at 0 (no line mapping: never a group)
+        b"a.A -> a:\n    0:3:void helper(int):20:22 -> a\n    0:3:void run():10 -> a\n    0:0:void z1() -> b\n    0:0:void z2(int) -> b\n    5:0:void y1() -> c\n    5:0:void y2() -> c\n    0:65535:void w1() -> d\n    0:65535:void w2() -> d\n",
+        // classes kept under their own name, with and without members, one re-declaring an earlier name
+        b"x.Y -> a.b:\n    void m() -> n\na.b -> a.b:\nkeep.Me -> keep.Me:\nkeep.Too -> keep.Too:\n    int f -> f\nq.R -> q.R:\n    void s() -> s\n",
+        // overloads of one obfuscated name whose parameter strings order differently as strings and as lists
+        b"o.V -> o:\n    void a(p.Q,int) -> a\n    void b(p.Q$R) -> a\n    void c(p.Q) -> a\n    void d(p.Q$R,int) -> a\n    void e(p.Q,int,long) -> a\n    void f() -> a\n    int g() -> a\n    1:2:void h(p.Q$R):5:6 -> a\n",
+        // overloads without line information that resolve to identical frames
+        b"com.example.Foo -> f:\n    void bar(int) -> a\n    void bar(java.lang.String) -> a\n    void bar(int) -> a\n    1:2:void baz():7:8 -> b\n    1:2:void baz():7:8 -> b\n",
+        // an original range shorter and longer than the obfuscated one
+        b"com.example.Widget -> w:\n    1:10:void render():20:22 -> a\n    1:2:void draw():30:39 -> b\n    0:0:void all():40:45 -> c\n",
+    ];
+    v.into_iter().map(|x| x.to_vec()).collect()
+}
+
 /// targeted queries: for every method line of the file (with the class it stands under), frames at the
 /// first, an interior, the last line of its range and one line either side, the by-parameters frame and
 /// the method lookup; at most `limit` queries, spread over the file
 pub fn targeted(src: &[u8], limit: usize) -> Vec<Value> {
+    let owned = src.to_vec();
+    crate::guarded(move || targeted_unguarded(&owned, limit)).unwrap_or_default()
+}
+
+fn targeted_unguarded(src: &[u8], limit: usize) -> Vec<Value> {
     let mut out = vec![];
     let mut class = String::new();
     for r in ProguardMapping::new(src).iter().flatten() {
@@ -389,6 +422,16 @@ fn pick_name(rng: &mut Rng, pool: &[String], unknown: &str) -> String {
     let n = rng.pick_ref(pool).clone();
     if rng.chance(1, 8) {
         near_miss(rng, &n)
+    } else if rng.chance(1, 10) {
+        // the same name in another spelling a caller might have at hand (JVM-internal, descriptor form,
+        // upper case, surrounding white space): lookups are exact, none of these is the name
+        match rng.below(5) {
+            0 => n.replace('.', "/"),
+            1 => format!("L{};", n.replace('.', "/")),
+            2 => n.to_uppercase(),
+            3 => format!(" {n}"),
+            _ => format!("{n} "),
+        }
     } else {
         n
     }
